@@ -21,13 +21,17 @@
 (* Design-level invariants (checked by TLC in every reachable state):         *)
 (*   Refinement, GapsSortedDisjoint, GapsExact, CountValid, CountCovered,     *)
 (*   OldestNewest, RejectsOld, WindowIndexOK, WindowDatetimeOK, SpanOK,       *)
-(*   PointOK, FixedWindowOK, FixedPointOK (the last two: the transcription   *)
-(*   with the small repair satisfies the clauses without any deviation)       *)
-(* Known deviations of the current code are cause predicates Dev_* over the   *)
-(* transcription's own intermediate values; the clause stays                  *)
-(* `Clause \/ Dev_*` so anything else still stops TLC:                        *)
+(*   PointOK  -- all hard: no deviation is tolerated.                         *)
+(* The transcription is the repaired design (repo commits 4b946d2: window()   *)
+(* normalises the clamped datetime bounds; 67229ac: at() reads NaN for a slot *)
+(* in a gap and rejects the index one past the newest).  The design before    *)
+(* those commits is kept as WinDTOld / PointIntOld / PointDTOld together with *)
+(* the cause predicates of its four defects,                                  *)
 (*   Dev_SameSlotFullBuffer, Dev_FillFromRawStart      (window, datetimes)    *)
 (*   Dev_PointIgnoresGaps, Dev_PointOnePastNewest      (MovingWindow.at)      *)
+(* so that a wrong answer that is exactly the old design's answer is reported *)
+(* with the name of its cause (OldWindowExplained / OldPointExplained check   *)
+(* that these causes are exact: the old design is wrong only where one fires).*)
 (*                                                                            *)
 (* Readings fixed here: a write of None/NaN is a write (it supersedes an      *)
 (* earlier valid value of that slot; tests/.../test_ringbuffer.py::test_gaps  *)
@@ -211,10 +215,11 @@ FillGaps(w, f, st) ==
 
 ClampLo(rp, st0) == Max(st0, rp.old)
 ClampHi(rp, en0) == Min(en0, rp.new + R)
-\* the part of window() after both arguments are datetimes
+\* the part of window() after both arguments are datetimes: clamp to the covered range,
+\* normalise (4b946d2), compare, convert to positions, cut, fill
 WinCore(rp, st0, en0, f) ==
-    LET st == ClampLo(rp, st0)
-        en == ClampHi(rp, en0)
+    LET st == NTick(ClampLo(rp, st0))
+        en == NTick(ClampHi(rp, en0))
     IN IF st >= en THEN <<>>
        ELSE LET sp == PosChk(st)
                 ep == PosChk(en)
@@ -225,14 +230,17 @@ WinIdxImpl(rp, s, e, f) ==
     IF rp.cov = 0 THEN <<>>
     ELSE WinCore(rp, rp.old + SliceLo(s, rp.cov) * R, rp.old + SliceHi(e, rp.cov) * R, f)
 
-\* the same with the two-line repair: normalise the clamped arguments before comparing them,
-\* converting them and handing the start to _fill_gaps
-WinCoreFixed(rp, st0, en0, f) ==
-    LET st == NTick(ClampLo(rp, st0))
-        en == NTick(ClampHi(rp, en0))
+\* the design before 4b946d2: the clamped bounds are compared, and the start handed to
+\* _fill_gaps, without normalising them
+WinCoreOld(rp, st0, en0, f) ==
+    LET st == ClampLo(rp, st0)
+        en == ClampHi(rp, en0)
     IN IF st >= en THEN <<>>
-       ELSE IF f = NOFILL THEN Wrapped(Pos(st), Pos(en)) ELSE FillGaps(Wrapped(Pos(st), Pos(en)), f, st)
-WinDTFixed(rp, s, e, f) == IF rp.cov = 0 THEN <<>> ELSE WinCoreFixed(rp, s, e, f)
+       ELSE LET sp == PosChk(st)
+                ep == PosChk(en)
+            IN IF sp = ERR \/ ep = ERR THEN <<ERR>>
+               ELSE IF f = NOFILL THEN Wrapped(sp, ep) ELSE FillGaps(Wrapped(sp, ep), f, st)
+WinDTOld(rp, s, e, f) == IF rp.cov = 0 THEN <<>> ELSE WinCoreOld(rp, s, e, f)
 
 (* what a window query has to return (ab is Abs): the slots it covers ... *)
 SlotsSeq(lo, hi) == [k \in 1..Max(hi - lo, 0) |-> lo + k - 1]
@@ -247,7 +255,7 @@ Matches(got, slots, f) ==
     /\ \A k \in 1..Len(slots) :
          LET c == CellAt(slots[k]) IN IF c \in Vals THEN got[k] = c ELSE (f = NOFILL \/ got[k] = f)
 
-(* deviations of window() *)
+(* causes of the wrong answers of the old design of window() (WinDTOld) *)
 \* clamped start < end are converted to the same container position although they are not a
 \* full capacity apart: _wrapped_buffer_window returns the whole container
 Dev_SameSlotFullBuffer(rp, s, e) ==
@@ -274,20 +282,27 @@ Dev_FillFromRawStart(rp, s, e, f) ==
 \* get_timestamp(index)
 GetTs(rp, k) == IF rp.old = NONE THEN NONE
                 ELSE IF k >= 0 THEN rp.old + k * R ELSE rp.new + R + k * R
+\* the common tail of at(): a slot inside a gap reads as NaN whatever the container holds;
+\* to_internal_index raises outside [oldest bound, newest bound + period]
+PointRead(ts) ==
+    IF IsMissing(NTick(ts)) THEN MISS
+    ELSE LET p == PosChk(ts) IN IF p = ERR THEN ERR ELSE data[p + 1]
 PointIntImpl(rp, k) ==
     IF rp.cv = 0 THEN ERR
-    ELSE LET p == PosChk(GetTs(rp, k)) IN IF p = ERR THEN ERR ELSE data[p + 1]
+    ELSE IF GetTs(rp, k) > rp.new THEN ERR            \* 67229ac: one past the newest is out of range
+    ELSE PointRead(GetTs(rp, k))
 PointDTImpl(rp, t) ==
     IF rp.cv = 0 THEN ERR
     ELSE IF t < rp.old \/ t > rp.new THEN ERR
+    ELSE PointRead(t)
+\* the design before 67229ac: the container position is read directly
+PointIntOld(rp, k) ==
+    IF rp.cv = 0 THEN ERR
+    ELSE LET p == PosChk(GetTs(rp, k)) IN IF p = ERR THEN ERR ELSE data[p + 1]
+PointDTOld(rp, t) ==
+    IF rp.cv = 0 THEN ERR
+    ELSE IF t < rp.old \/ t > rp.new THEN ERR
     ELSE LET p == PosChk(t) IN IF p = ERR THEN ERR ELSE data[p + 1]
-\* repaired: one past the newest slot is out of range, a slot listed in gaps reads as NaN
-PointFixed(rp, tick) ==
-    IF rp.cv = 0 \/ tick = NONE THEN ERR
-    ELSE LET n == NTick(tick) IN
-         IF n > tsNewest \/ n < tsOldest THEN ERR
-         ELSE IF IsMissing(n) THEN MISS ELSE data[Pos(n) + 1]
-PointDTFixed(rp, t) == IF rp.cv = 0 \/ t < rp.old \/ t > rp.new THEN ERR ELSE PointFixed(rp, t)
 
 \* the slot an integer key addresses (index 0 = oldest valid slot, -1 = newest slot)
 PointIntSlot(ab, k) == IF ab.valid = 0 THEN NONE ELSE IF k >= 0 THEN ab.oldest + k ELSE aNewest + 1 + k
@@ -303,10 +318,14 @@ PointDTClause(ab, got, t) ==
     IF ab.valid # 0 /\ Tick(ab.oldest) <= t /\ t <= Tick(aNewest) THEN got = Out(CellAt(NSlot(t)))
     ELSE IF InCovered(ab, NSlot(t)) THEN got \in {ERR, Out(CellAt(NSlot(t)))}
     ELSE got \in {ERR, MISS}
-\* strict reading of the documented IndexError (not part of the property: reported as a note)
+\* Strict reading of at()'s docstring: IndexError for every key outside the covered range.  The
+\* property does not demand it (it speaks of the values queries return: stored value or "no valid
+\* value", never evicted / unwritten data); a key that addresses a window slot before the oldest
+\* valid one reads NaN, which is true of that slot.  Reported as a note, never as a failure.
 PointIntRange(ab, got, k) == InCovered(ab, PointIntSlot(ab, k)) \/ got = ERR
 
-(* deviations of point access, over the instant (tick) the key was converted to *)
+(* causes of the wrong answers of the old design of at() (PointIntOld / PointDTOld), over the
+   instant (tick) the key was converted to *)
 \* at() indexes the container directly: a slot listed in gaps that was never written since
 \* the window moved over it still holds the evicted (or initial) value
 Dev_PointIgnoresGaps(rp, tick) ==
@@ -397,33 +416,33 @@ WindowIndexOK ==
        Matches(WinIdxImpl(rp, IdxArgs[i], IdxArgs[j], f), WinIdxSlots(ab, IdxArgs[i], IdxArgs[j]), f)
 WindowDatetimeOK ==
     LET rp == Rep  ab == Abs IN
-    \A s, e \in QTicks, f \in MCFills :
-       \/ Matches(WinDTImpl(rp, s, e, f), WinDTSlots(ab, s, e), f)
-       \/ Dev_SameSlotFullBuffer(rp, s, e)
-       \/ Dev_FillFromRawStart(rp, s, e, f)
+    \A s, e \in QTicks, f \in MCFills : Matches(WinDTImpl(rp, s, e, f), WinDTSlots(ab, s, e), f)
 SpanOK ==
     LET rp == Rep IN
-    \A s, e \in QTicks :
-       \/ Len(WinDTImpl(rp, s, e, MISS)) <= SpanSlots(s, e)
-       \/ Dev_SameSlotFullBuffer(rp, s, e)
-\* the deviations are causes, not excuses: with the repair no query in scope is wrong
-FixedWindowOK ==
-    LET rp == Rep  ab == Abs IN
-    \A s, e \in QTicks, f \in MCFills : Matches(WinDTFixed(rp, s, e, f), WinDTSlots(ab, s, e), f)
-
+    \A s, e \in QTicks : Len(WinDTImpl(rp, s, e, MISS)) <= SpanSlots(s, e)
 PointOK ==
+    LET rp == Rep  ab == Abs IN
+    /\ \A i \in 1..Len(PKeys) : PointIntClause(ab, PointIntImpl(rp, PKeys[i]), PKeys[i])
+    /\ \A t \in QTicks : PointDTClause(ab, PointDTImpl(rp, t), t)
+
+\* the Dev_* predicates are exact causes: the old design is wrong only where one of them fires
+OldWindowExplained ==
+    LET rp == Rep  ab == Abs IN
+    \A s, e \in QTicks, f \in MCFills :
+       /\ \/ Matches(WinDTOld(rp, s, e, f), WinDTSlots(ab, s, e), f)
+          \/ Dev_SameSlotFullBuffer(rp, s, e)
+          \/ Dev_FillFromRawStart(rp, s, e, f)
+       /\ \/ Len(WinDTOld(rp, s, e, f)) <= SpanSlots(s, e)
+          \/ Dev_SameSlotFullBuffer(rp, s, e)
+OldPointExplained ==
     LET rp == Rep  ab == Abs IN
     /\ \A i \in 1..Len(PKeys) :
          LET k == PKeys[i] IN
-         \/ PointIntClause(ab, PointIntImpl(rp, k), k)
+         \/ PointIntClause(ab, PointIntOld(rp, k), k)
          \/ Dev_PointIgnoresGaps(rp, GetTs(rp, k))
          \/ Dev_PointOnePastNewest(rp, GetTs(rp, k))
     /\ \A t \in QTicks :
-         \/ PointDTClause(ab, PointDTImpl(rp, t), t)
+         \/ PointDTClause(ab, PointDTOld(rp, t), t)
          \/ Dev_PointIgnoresGaps(rp, t)
-FixedPointOK ==
-    LET rp == Rep  ab == Abs IN
-    /\ \A i \in 1..Len(PKeys) : PointIntClause(ab, PointFixed(rp, GetTs(rp, PKeys[i])), PKeys[i])
-    /\ \A t \in QTicks : PointDTClause(ab, PointDTFixed(rp, t), t)
 
 =============================================================================
